@@ -3,6 +3,7 @@
   (the functions `stepFn`, `exec`, `drain`, `runToEnd` are the ones the driver executes).
 -/
 import Gotree.Lemmas.C11Pools
+import Gotree.Lemmas.C11Collect
 
 namespace Gotree.C11
 
@@ -454,13 +455,27 @@ theorem table_hashmap_writes_locked :
 
 
 /-- table decision: `HashMap.Value` and `HashMap.PutValue` (the two methods the pools use, hashmap.go:47,62)
-    touch the state behind their receiver only with the lock held, reads included.  (`Keys` and
-    `KeyValues` read it without the lock: no pool calls them while another goroutine writes.) -/
+    touch the state behind their receiver only with the lock held, reads included. -/
 theorem table_hashmap_value_put_locked :
     ((Gotree.Gen.C11.hashMapAccesses.filter (fun ma => ma.1 == "HashMap.Value" || ma.1 == "HashMap.PutValue")).all
       (fun ma => match ma.2.sync with | .mutex => true | _ => false)) = true ∧
     (Gotree.Gen.C11.hashMapAccesses.any (fun ma => ma.1 == "HashMap.Value")) = true ∧
     (Gotree.Gen.C11.hashMapAccesses.any (fun ma => ma.1 == "HashMap.PutValue" && ma.2.write)) = true := by decide
+
+/-- table decision ("the consumer drains", the assumption built into the send step of the LTS): in
+    cmd/comparetrees.go the channels returned by `tree.Compare` and `tree.CompareWeighted` are each ranged
+    over by the caller, and every "empty the channel" loop inside names that same channel (F38 drained the
+    other, nil, one).  Syntactic. -/
+theorem table_callers_drain :
+    Gotree.Gen.C11.compareCallers.length = 2 ∧
+    (Gotree.Gen.C11.compareCallers.all (fun c => c.2.2.1 && c.2.2.2.all (fun d => d == c.2.1))) = true ∧
+    (Gotree.Gen.C11.compareCallers.any (fun c => c.1 == "CompareWeighted" && !c.2.2.2.isEmpty)) = true := by decide
+
+/-- table decision: EVERY exported method of `*hashmap.HashMap` (Keys and KeyValues included, since
+    ade4233) touches the state behind its receiver only with the lock held -/
+theorem table_hashmap_all_locked :
+    ((Gotree.Gen.C11.hashMapAccesses.filter (fun ma => (ma.1.toList.take 8) == "HashMap.".toList)).all
+      (fun ma => match ma.2.sync with | .mutex => true | _ => false)) = true := by decide
 
 /-- table decision: every exported method of `*support.Supporter` (the progress counter and the stop
     flag shared by the FBP/TBE workers and the caller, F17) touches its fields only with the lock held -/
@@ -860,6 +875,82 @@ theorem driver_runs_extracted_fbp_anycap (f : α → β) (stops : α → Bool) (
   exact (pool_normal_form_complete_anycap fbpPool (by decide) f stops w hw cap inp (Or.inr hno) _ hR hT).2
 
 end AnyCap
+
+/-! ## What the caller sees: the collectors
+
+  The theorems above are about the multiset of the workers' messages.  FBP's caller sees the supports
+  computed by the collector from those messages; TBE's caller sees, per bootstrap tree, one raw support
+  per reference branch.  Both are invariant under permutation of the messages (Lemmas/C11Collect.lean),
+  so they do not depend on the schedule either — stated for the functions the driver runs, with the
+  shapes EXTRACTED from the source (`FBP_worker0.facts.shape`, `tbePool.shape` are the driver's
+  `extractedShape "fbp"`, `extractedShape "tbe"`). -/
+
+section Collectors
+open Classical
+
+/-- FBP: for a stream without erroneous tree the supports the collector computes are the same under
+    every schedule, every worker count and channel capacity: those of the sequential run. -/
+theorem fbp_supports_schedule_independent (ref : T) (stops : (Nat × Item) → Bool) (w : Nat) (hw : 1 ≤ w) (cap : Nat)
+    (inp : List (Nat × Item)) (hno : ∀ x ∈ inp, stops x = false) (sched : List (Nat × Nat)) (ntrees : Nat) :
+    fbpSupports ref (runToEnd FBP_worker0.facts.shape (fun x : Nat × Item => fbpFound ref x.2) stops w cap inp sched).out ntrees =
+    fbpSupports ref (inp.map fun x => fbpFound ref x.2) ntrees := by
+  have h := (runToEnd_complete_anycap FBP_worker0.facts (by decide) (fun x : Nat × Item => fbpFound ref x.2) stops w hw cap inp
+    (Or.inr hno) sched).2
+  exact fbpSupports_perm ref h ntrees
+
+/-- TBE: for one bootstrap tree `b`, the raw supports collected after the fan-out over the reference
+    branches are the same under every schedule, worker count and capacity: every branch is there, with
+    the value the sequential per-branch function gives it. -/
+theorem tbe_fanout_schedule_independent (r b : T) (sups : List Rat) (w : Nat) (hw : 1 ≤ w) (cap : Nat) (sched : List (Nat × Nat)) :
+    tbeCollect r.splits.length (runToEnd tbePool.shape (tbeItemFn r b) (fun _ => false) w cap (tbeItems r sups) sched).out =
+    tbeCollect r.splits.length ((tbeItems r sups).map (tbeItemFn r b)) := by
+  have h := (runToEnd_complete_anycap tbePool (by decide) (tbeItemFn r b) (fun _ => false) w hw cap (tbeItems r sups)
+    (Or.inl (by decide)) sched).2
+  exact (tbeCollect_perm h.symm (tbeItems_keys_nodup r b sups) _).symm
+
+/-- FBP with an erroneous tree anywhere in the stream: under every schedule the driver's run of the
+    extracted pool ends with the caller released and the error set (the supports are then unspecified). -/
+theorem fbp_error_schedule_independent (f : α → β) (stops : α → Bool) (w : Nat) (hw : 1 ≤ w) (cap : Nat)
+    (inp : List α) (hbad : ∃ x ∈ inp, stops x = true) (sched : List (Nat × Nat)) :
+    (runToEnd FBP_worker0.facts.shape f stops w cap inp sched).closed = true ∧
+    (runToEnd FBP_worker0.facts.shape f stops w cap inp sched).errSet = true := by
+  obtain ⟨hR, hT⟩ := runToEnd_maximal FBP_worker0.facts f stops w cap inp sched
+  have h := (error_reaches_caller_anycap FBP_worker0.facts (by decide) f stops w hw cap inp _ hR hT).2 (by decide)
+  exact ⟨h.1, h.2.mpr hbad⟩
+
+/-- "Tree by tree": when the items carry distinct identifiers that the per-item function copies into its
+    result (the tree id of `BipartitionStats`), every maximal run of a clean recording pool delivers
+    exactly one result per identifier of the stream. -/
+theorem pool_one_record_per_id (F : PoolFacts) (hF : F.exitsWithoutDone = [] ∧ F.unsyncSharedWrites = [] ∧ F.producerLeaks = [])
+    (f : α → β) (stops : α → Bool) (w : Nat) (hw : 1 ≤ w) (cap : Nat) (inp : List α)
+    (hE : F.earlyExits = [] ∨ ∀ x ∈ inp, stops x = false)
+    (key : α → Nat) (keyOut : β → Nat) (hkey : ∀ x, keyOut (f x) = key x) (hn : (inp.map key).Nodup)
+    (s : PState α β) (hR : Reachable F f stops (init w cap inp) s) (hT : Terminal F f stops s) :
+    (s.out.map keyOut).Perm (inp.map key) ∧ (s.out.map keyOut).Nodup := by
+  have hp := (pool_normal_form_complete_anycap F hF f stops w hw cap inp hE s hR hT).2
+  have h1 : (s.out.map keyOut).Perm (inp.map key) := by
+    have := hp.map keyOut
+    simpa [List.map_map, Function.comp_def, hkey] using this
+  exact ⟨h1, (h1.nodup_iff).mpr hn⟩
+
+/-- The ORDER in which the caller receives the results of a recording pool (every shape without early
+    exit, clean or not; every schedule): the input channel is a queue and each of the `w` workers holds
+    at most one item, so the result of the item at position `k` of the stream is never delivered before
+    `k - w + 1` others: if it is the `j`-th delivery (`s.done.reverse` is the delivery order), `k < j + w`.
+    This is the schedule-DEPENDENT observation the driver compares with the order in which the real
+    pools deliver their records (`orderOK`); with one worker the order is the order of the stream
+    (`pool_single_worker_sequential`). -/
+theorem pool_arrival_window (F : PoolFacts) (hE : F.earlyExits = []) (f : α → β) (stops : α → Bool) (w cap : Nat)
+    (inp : List α) (hn : inp.Nodup) (s : PState α β) (hR : Reachable F f stops (init w cap inp) s)
+    (j k : Nat) (x : α) (hj : s.done.reverse[j]? = some x) (hk : inp[k]? = some x) : k < j + w := by
+  have hI := reachable_inv F f stops w cap inp s hR
+  have hW := reachable_win F f stops w cap inp hn s hR
+  have hd : s.dropped = [] := hI.droppedEarly (by simp [PoolFacts.shape, hE])
+  have := hW.win j x k hj hk
+  rw [hd] at this
+  simpa using this
+
+end Collectors
 
 /-! ## The repaired defects, on the shapes the pinned tree had -/
 
